@@ -62,6 +62,14 @@ impl RadiusAccount {
         })
     }
 
+    /// The validity window must not depend on what the requester is allowed to read: take it
+    /// from the stored entry.
+    pub(crate) fn with_validity_of(mut self, entry: &EntrySealedCommitted) -> Self {
+        self.valid_from = entry.get_ava_single_datetime(Attribute::AccountValidFrom);
+        self.expire = entry.get_ava_single_datetime(Attribute::AccountExpire);
+        self
+    }
+
     fn is_within_valid_time(&self, ct: Duration) -> bool {
         let cot = OffsetDateTime::UNIX_EPOCH + ct;
 
